@@ -43,3 +43,4 @@ pub fn point(name: &'static str) {
         f(name)
     }
 }
+pub mod bgp_io;
